@@ -33,6 +33,7 @@ Templates ==
     pub_of       |-> PubOf(Sym("sk")),
     rd_k1        |-> RS.k1,  rd_n1 |-> RS.n1,  rd_ad1 |-> RS.ad1,
     rd_k2        |-> RS.k2,  rd_n2 |-> RS.n2,  rd_ad2 |-> RS.ad2,  rd_hh |-> RS.hh,
+    rd_file_key  |-> KeyFileKey(Sym("payload"), RS.hh),
     hkdf_noise_1 |-> HkdfOut1(Sym("ck"), Sym("ikm")),
     hkdf_noise_2 |-> HkdfOut2(Sym("ck"), Sym("ikm")) ]
 
